@@ -91,6 +91,10 @@ def check_C14(ctx, unit):
                         v, hops_ = v.children[0].strip(), hops_ + 1
                 if v.kind == "CXXMemberCallExpr" and v.callee and v.callee["n"] == "allocate" and v.args:
                     sz = v.args[0].strip()
+                    if not (sz.kind == "BinaryOperator" and sz.op == "*"):
+                        lsz_ = value_leaves(f, v.args[0])           # (the byte count may come from a folded helper: table_bytes(n))
+                        if len(lsz_) == 1:
+                            sz = lsz_[0].strip()
                     if sz.kind == "BinaryOperator" and sz.op == "*":
                         for side in sz.children:
                             s2 = side.strip()
